@@ -63,7 +63,38 @@ def shards(tier, seed):
         sh['e2e'] = True
         sh['M'] = [0, 2]
         out.append(sh)
+    out.append({'long': True, 'L': 33000})
     return out
+
+
+def long_trace(L):
+    """One atom, three sites, a handful of visits separated by long waits; the last jumps happen after frame 32767."""
+    marks = [(0, 1), (40, 0), (45, 3), (200, 0), (32750, 5), (32760, 0), (32770, 1), (32800, 3), (32900, 0), (32950, 5), (L - 2, 1)]
+    trace, cur, k = [], 0, 0
+    for t in range(L):
+        while k < len(marks) and marks[k][0] == t:
+            cur = marks[k][1]
+            k += 1
+        trace.append((cur,))
+    return trace
+
+
+def check_long(L):
+    trace = long_trace(L)
+    viols = []
+    tr = impl.make_transitions(trace, 3)
+    D = sorted(hop.default_jumps(trace))
+    for m in (0, 3, 60):
+        try:
+            rows = sorted(real_jumps(tr, m))
+        except Exception as e:  # noqa: BLE001
+            viols.append((f'long-history-jumps-raise-{type(e).__name__}', f'm={m}: {e}'))
+            continue
+        if m == 0 and rows != D:
+            viols.append(('long-history-default-jumps-differ', f'got={rows} expected={D}'))
+        if any(r[:4] not in {d[:4] for d in D} for r in rows):
+            viols.append(('long-history-jump-not-a-default-jump', f'm={m} got={rows} default={D}'))
+    return viols
 
 
 def real_jumps(tr, m):
@@ -193,6 +224,17 @@ def check_e2e(trace, S, M):
 
 def run_shard(shard) -> Result:
     res = Result()
+    if shard.get('long'):
+        impl.clear_weak_caches()
+        for kind, detail in check_long(shard['L']):
+            res.violation(kind, {'long_L': shard['L']}, detail)
+        res.evals += 3
+        res.traces += 1
+        res.states += shard['L']
+        res.transitions += shard['L']
+        res.outcome(('long', shard['L']))
+        res.stats['long_history_frames'] += shard['L']
+        return res
     if shard.get('e2e'):
         S, M = shard['S'], shard['M']
         for n, trace in enumerate(traces.iter_shard(shard)):
@@ -225,6 +267,8 @@ def run_shard(shard) -> Result:
 
 
 def replay(case):
+    if 'long_L' in case:
+        return [{'kind': k, 'detail': d} for k, d in check_long(case['long_L'])]
     if case.get('e2e'):
         viols, _ = check_e2e(case['trace'], case['n_sites'], case['M'])
         return [{'kind': k, 'detail': d} for k, d in viols]
